@@ -12,7 +12,7 @@ HEX = '3bb9561e35b06175bb6d2c2330578dc83846cc5d'
 URLS = ml.URL_POOL_GOOD + ['http://mirror/pub/My%20Files/', 'http://t.example/announce?passkey=ab%2Fcd%3D%3D&x=1', 'https://h/p#frag=1&2',
                            'http://h/a+b', 'http://h/ä/ö?q=ü', 'http://h/%', 'http://h/100%25', 'http://h/a;b=c', 'http://h/?a=1&b=2=3']
 NAMES = ['plain', 'a b', 'a&b=c', '100%', 'x+y', '#hash?', 'ünïcödé', '日本語 テスト', '\U0001F600 smile', 'tab\there', 'nul\x00byte', 'a;b', '%41', '%zz',
-         'semi;colon&amp;', ' lead', 'trail ', 'new\nline', '=', '&', '+', '~_.-', "quote'\"", 'a/b\\c']
+         'semi;colon&amp;', ' lead', 'trail ', 'new\nline', '=', '&', '+', '~_.-', "quote'\"", 'a/b\\c', 'Cafe\u0301 del Mar', '\u1100\u1161\u11a8', '\u2126\u212a\u212b', '\u0958', 'a\u0323\u0307', '\ufb01le', '\u1e9b\u0323', 'I\u0307stanbul', '\u00df STRASSE', '\u200bzero width', '\ufeffbom', 'tr\u0131m', ' lead', 'trail ', '  ']
 KEYWORDS = ['foo', 'bar', 'a&b', 'c=d', 'ü', 'x+y', '%25', 'k#', '日本']
 
 
